@@ -168,8 +168,11 @@ def run_check(prop, mod, tier, seed, t0):
         "assumptions": res.get("assumptions", []), "wall_s": round(wall, 2),
         "violations": len(violations) + (1 if rc and not violations else 0),
     }
-    os.makedirs(os.path.join(VERIF, "evidence"), exist_ok=True)
-    json.dump(ev, open(os.path.join(VERIF, "evidence", f"{prop}.json"), "w"), indent=1, default=str)
+    # evidence/ holds what the checks found on /repo itself; a run against another tree (XOBJECTS_REPO: a scratch worktree with a seeded
+    # change, a `vp run --with-repo` snapshot) must not overwrite it - its record goes to the ignored work/ directory
+    edir = os.path.join(VERIF, "evidence") if os.path.realpath(common.REPO) == "/repo" else os.path.join(VERIF, "work", "evidence-other-tree")
+    os.makedirs(edir, exist_ok=True)
+    json.dump(ev, open(os.path.join(edir, f"{prop}.json"), "w"), indent=1, default=str)
     print(f"[{prop}] tier={tier} seed={seed} theorems {len(discharged)}/{len(expected)} "
           f"evaluations={cov['evaluations']} distinct={cov['distinct_nontrivial']} "
           f"tie-mismatches={len(mismatches)} oracle-failures={len(failures)} wall={wall:.1f}s rc={rc}")
